@@ -242,6 +242,15 @@ func maskSTLDates(ext string, b []byte) []byte {
 }
 
 func checkC07(c c07Case) string {
+	if len(c.Doc)%3 == 0 && c.Dst != "" {
+		// an earlier write of another list to the same format, to a destination that broke half way: nothing of it may
+		// show in this conversion
+		f := canonFormat(c.Dst)
+		if f == "ass" {
+			f = "ssa"
+		}
+		priorFailedWrite(f, 40+len(c.Doc)%200, len(c.Doc)%4)
+	}
 	dir, err := os.MkdirTemp("", "c07")
 	if err != nil {
 		return ""
